@@ -28,7 +28,7 @@ W_ARGERR = {'steps': [P(['def', 'A$', ['X$', 'Y%'], sv('X$')]),
 class C20(C10):
     ID = 'C20'
     PROPS = 'props/C20.v'
-    QUICK_CASES = 240
+    QUICK_CASES = 150
     THOROUGH_CASES = 4000
     RULE = ('generated DEF FN sets (1..4 functions, 0..4 parameters of all four types, parameters that shadow globals '
             'and parameters that do not exist yet, bodies that read parameters and globals, allocate strings, call '
